@@ -13,6 +13,7 @@ import (
 	"strconv"
 	"strings"
 
+	"github.com/go-critic/go-critic/checkers/rulesdata"
 	"github.com/go-critic/go-critic/linter"
 
 	"verifharness/internal/common"
@@ -72,6 +73,7 @@ func extractRules(path string) ([]shippedRule, error) {
 			}
 			r := shippedRule{group: fd.Name.Name}
 			isRule := false
+			at := ""
 			var cur ast.Expr = es.X
 			for {
 				call, ok := cur.(*ast.CallExpr)
@@ -95,16 +97,44 @@ func extractRules(path string) ([]shippedRule, error) {
 				case "Report":
 					r.report = lit(call.Args[0])
 				case "At":
-					r.where += " @At(" + text(call.Args[0]) + ")"
+					at = " @At(" + text(call.Args[0]) + ")"
 				}
 				cur = sel.X
 			}
+			r.where += at
 			if isRule {
 				out = append(out, r)
 			}
 		}
 	}
 	return out, nil
+}
+
+// executedRules reads the same table from the precompiled IR that the embedded checkers actually execute
+// (checkers/rulesdata.PrecompiledRules): a rule whose data drifted from rules.go shows up here.
+func executedRules() []shippedRule {
+	covered := map[string]bool{}
+	for _, g := range coveredGroups {
+		covered[g] = true
+	}
+	var out []shippedRule
+	for _, g := range rulesdata.PrecompiledRules.RuleGroups {
+		if !covered[g.Name] {
+			continue
+		}
+		for _, r := range g.Rules {
+			sr := shippedRule{group: g.Name, suggest: r.SuggestTemplate, report: r.ReportTemplate}
+			for _, p := range r.SyntaxPatterns {
+				sr.patterns = append(sr.patterns, p.Value)
+			}
+			sr.where = strings.Join(strings.Fields(r.WhereExpr.Src), " ")
+			if r.LocationVar != "" {
+				sr.where += " @At(m[\"" + r.LocationVar + "\"])"
+			}
+			out = append(out, sr)
+		}
+	}
+	return out
 }
 
 func (r shippedRule) coq() string {
@@ -438,6 +468,25 @@ func runRules(meta *common.Meta, tier string, seed int64, outDir string) {
 			"Definition cases : list (rule * rule) := zip_rules shipped_rules observed.\n"+
 			"Definition case_ok (c : rule * rule) : bool := rule_eqb (fst c) (snd c).\n"+
 			"Definition M := Eval vm_compute in (if Nat.eqb (List.length shipped_rules) (List.length observed) then mismatches case_ok cases else [999%N]).\nPrint M.\n")
+	// ... and the executed IR vs the model's table (the Where text of the IR is the filter's source as the
+	// precompiler recorded it; local helper functions of rules.go are inlined there, see ir_where_of)
+	execd := executedRules()
+	var eitems, eidx []string
+	for _, r := range execd {
+		eitems = append(eitems, r.coq())
+		eidx = append(eidx, fmt.Sprintf("IR %s: %q where %q suggest %q report %q", r.group, r.patterns, r.where, r.suggest, r.report))
+	}
+	common.WriteFile(filepath.Join(outDir, "cases_c10_rules_ir.v"),
+		"From GC Require Import Base Model_Expr Model_Rewrites.\n"+
+			"(* the rules of the covered groups as the binary executes them (rulesdata.PrecompiledRules) *)\n"+
+			"Definition observed : list rule := [\n"+strings.Join(eitems, ";\n")+"\n].\n"+
+			"Definition cases : list (rule * rule) := zip_rules (map ir_view shipped_rules) observed.\n"+
+			"Definition case_ok (c : rule * rule) : bool := rule_eqb (fst c) (snd c).\n"+
+			"Definition M := Eval vm_compute in (if Nat.eqb (List.length shipped_rules) (List.length observed) then mismatches case_ok cases else [999%N]).\nPrint M.\n")
+	common.WriteFile(filepath.Join(outDir, "cases_c10_rules_ir.index.txt"), strings.Join(eidx, "\n")+"\n")
+	meta.CaseFiles = append(meta.CaseFiles, "cases_c10_rules_ir.v")
+	meta.Evaluations += len(execd)
+	meta.Distribution["rules_compared_with_executed_ir"] = len(execd)
 	var idx []string
 	for _, r := range shipped {
 		idx = append(idx, fmt.Sprintf("%s: %q where %q suggest %q report %q", r.group, r.patterns, r.where, r.suggest, r.report))
